@@ -15,10 +15,11 @@ func NewEnv() *Env {
 	return &Env{nil, map[string]*Type{}, map[string]interface{}{}}
 }
 
+// Inherit returns a view of e whose lookups fall back to parent. e itself is
+// left untouched, so that the same environment can be used again.
 func (e *Env) Inherit(parent *Env) *Env {
 	util.Assert(e.parent == nil, "env.parent != nil")
-	e.parent = parent
-	return e
+	return &Env{parent, e.ctx, e.fnTbl}
 }
 
 func (e *Env) Derive() *Env {
